@@ -418,10 +418,11 @@ def check_wrappers(ctx, c):
                 k = gs.krige.Ordinary(m, cp, cv)
                 k(x)
                 k(x, return_var=False)
-                gs.vario_estimate(x, f, np.linspace(0, 3, 4))
-                gs.vario_estimate(x, f, np.linspace(0, 3, 4), direction=[1.0, 0.0])
-                gs.vario_estimate_axis(rng.normal(size=(6, 4)))
-                gs.vario_estimate_axis(np.ma.array(rng.normal(size=(6, 4)), mask=rng.random((6, 4)) < 0.3))
+                est = "cressie" if nt in (1, 16) else "matheron"
+                gs.vario_estimate(x, f, np.linspace(0, 3, 4), estimator=est)
+                gs.vario_estimate(x, f, np.linspace(0, 3, 4), direction=[1.0, 0.0], estimator=est)
+                gs.vario_estimate_axis(rng.normal(size=(6, 4)), estimator=est)
+                gs.vario_estimate_axis(np.ma.array(rng.normal(size=(6, 4)), mask=rng.random((6, 4)) < 0.3), estimator=est)
             names = [s_[0] for s_ in seen]
             ctx.event("wrapper_calls_spied", len(seen))
             # the generators hand the kernels their own samples and the isometrized positions, nothing else
@@ -437,6 +438,13 @@ def check_wrappers(ctx, c):
             if names != want:
                 ctx.fail({"what": "public-API-dispatches-to-another-kernel"}, f"kernels called: {names}, expected {want}")
                 return
+            # the estimator the user asked for reaches every variogram kernel
+            for nm, a, kw in seen[5:]:
+                flat = list(a) + list(kw.values())
+                got_est = [v for v in flat if isinstance(v, str) and v in ("m", "c")]
+                if not got_est or got_est[0] != est[0]:
+                    ctx.fail({"what": "estimator-not-forwarded-to-kernel", "kernel": nm}, f"estimator={est!r}: kernel {nm} received {got_est or 'its default'}")
+                    return
             for nm, a, kw in seen:
                 got_nt = kw.get("num_threads", a[-1] if a else "missing")
                 forwarded.setdefault(nm, []).append([nt, got_nt])
